@@ -146,6 +146,7 @@ func Check(env *core.Env, rep *core.Report) *core.Result {
 		sc := Scenario{NR: g.scn.NR, NC: g.scn.NC, Sched: g.scn.Sched, CondErr: g.scn.CondErr, Hold: g.scn.Hold, Dir: env.Sub("cancel")}
 		if sc.Sched {
 			sc.NWait = rng.Intn(4)
+			sc.Nested = rng.Intn(3) == 0
 		}
 		for k := 0; k < sc.NR; k++ {
 			sc.Allow = append(sc.Allow, rng.Intn(2) == 0)
@@ -194,6 +195,9 @@ func Check(env *core.Env, rep *core.Report) *core.Result {
 			}
 		}
 		desc := fmt.Sprintf("%s cancel x%d, holds %v (%d in flight)", mode, o.sc.NC, o.sc.Hold, nIn)
+		if o.sc.Nested {
+			desc += ", as a nested pipeline"
+		}
 		if o.res == nil {
 			if o.bin.Crashed() || o.bin.Signaled {
 				add("C12", "crash:"+mode, "process crashed: "+desc+": "+firstLine(o.bin.Stderr), o)
